@@ -332,6 +332,40 @@ def main():
         for sub, pos in [("version", None), ("check", "1.2.3")]:
             judge(sub, pos, {})
         _tls_bin.bin = None
+    # a command that fails *once*: stubs that fail their first run with a diagnostic from the vocabulary of transient faults (lock files,
+    # EAGAIN, time-outs, busy resources ...) and would succeed if run again. The equivalent command line fails, so the call raises - and the
+    # command is executed exactly once (a wrapper that quietly runs it again returns text the command line never printed)
+    transient = ["fatal: Unable to create '/r/.git/index.lock': File exists.", "Error: Resource temporarily unavailable (os error 11)", "fatal: unable to access 'https://x/': Connection reset by peer",
+                 "error: cannot lock ref 'refs/heads/main': is at 0 but expected 1", "Error: Text file busy (os error 26)", "Error: Too many open files (os error 24)", "Error: Interrupted system call (os error 4)",
+                 "Error: operation timed out, try again", "fatal: index file smaller than expected", "Error: Device or resource busy (os error 16)", "error: transient failure, please retry", "Error: Broken pipe (os error 32)"]
+    for i, msg in enumerate(transient):
+        for code in (1, 128, 75):
+            stub = os.path.join(stub_dir, f"zerv-once-{i}-{code}")
+            cnt = stub + ".count"
+            open(stub, "w").write(f"#!/bin/sh\nn=$(cat '{cnt}' 2>/dev/null || echo 0); n=$((n+1)); echo $n > '{cnt}'\nif [ $n -eq 1 ]; then echo \"{msg}\" >&2; exit {code}; fi\necho 1.2.3\n")
+            os.chmod(stub, os.stat(stub).st_mode | stat.S_IEXEC)
+            _tls_bin.bin = stub
+            for sub, pos in [("version", None), ("flow", None), ("check", "1.2.3"), ("render", "1.2.3")]:
+                if os.path.exists(cnt):
+                    os.remove(cnt)
+                fn = getattr(zerv, sub)
+                key = f"zerv.{sub}() on a command that fails once with exit {code} and {msg!r}"
+                case = {"kind": "fail-once", "sub": sub, "message": msg, "code": code}
+                with lock:
+                    counts["cases"] += 1
+                    counts["api_calls"] += 1
+                    counts["fail_once_cases"] = counts.get("fail_once_cases", 0) + 1
+                try:
+                    ret = fn(pos) if pos is not None else fn()
+                    viol("failure_not_raised", key, f"returned {ret!r}; the command line exits {code} with nothing on stdout", case)
+                except RuntimeError:
+                    pass
+                except Exception as e:
+                    viol("unexpected_exception_type", key, repr(e), case)
+                runs = int(open(cnt).read().strip()) if os.path.exists(cnt) else 0
+                if runs != 1:
+                    viol("command_not_executed_exactly_once", key, f"the command was executed {runs} times for one call", case)
+            _tls_bin.bin = None
     json.dump({"violations": violations, "counts": counts, "samples": samples, "keywords": kwcount}, open(out_path, "w"))
 
 
